@@ -66,7 +66,9 @@ package origins
 //@   pure
 //@   allocs <= 0
 //@   requires t != nil && o != nil && NodeOK(addr(t.root)) && 0 <= o.Port && o.Port <= 65535
+//@   uses treehas_def
 //@   ensures C01.contains_is_match: result == Match(addr(t.root), o.Host.Value, o.Scheme, o.Port)
+//@   ensures result == TreeHas(t, o.Scheme, o.Host.Value, o.Port)
 //@   loop 0 invariant n != nil && NodeOK(n)
 //@   loop 0 invariant C01.descent: Match(addr(t.root), o.Host.Value, o.Scheme, o.Port) == MatchBody(n, host, o.Scheme, o.Port)
 //@   loop 0 decreases len(host)
